@@ -597,6 +597,55 @@ def int_display(ctx, prog):
     ctx.floor('INT-FMT', 'paths', n, 2)
 
 
+def display_entry(ctx, prog):
+    """minicbor::display(bytes) renders *those* bytes: the tokenizer it returns reads the argument slice from position 0"""
+    ctx.rules_run.append('DISPLAY-ENTRY: minicbor::display(cbor) returns a tokenizer whose decoder holds exactly the argument slice (same data, same length) at position 0')
+    inst = prog.one('minicbor::display')
+    if inst is None:
+        ctx.fail_closed('DISPLAY-ENTRY', 'anchor missing: minicbor::display')
+        return
+    where = mir.loc(inst['sp'])
+    m = Machine(prog, prims=prims.P, overrides={}, max_configs=200, max_steps=20000)
+    st = State()
+    ln = m.new_sym(st, 'cbor.len', 'usize', ((0, 1 << 40),))
+    try:
+        outs = m.run(inst, [Slice(None, 'cbor', Int.sym(ln))], st)
+    except Abort as e:
+        ctx.fail_closed('DISPLAY-ENTRY', 'minicbor::display cannot be interpreted: %s' % e)
+        return
+    good = len(outs) == 1 and outs[0].kind == 'return'
+    slices, poss = [], []
+
+    def walk(v, name=''):
+        if isinstance(v, Slice):
+            slices.append(v)
+        elif isinstance(v, Adt):
+            ad = prog.adts.get(v.adt)
+            names = ad['variants'][v.variant]['fields'] if ad and v.variant < len(ad['variants']) else []
+            for i, f in enumerate(v.fields):
+                walk(f, names[i] if i < len(names) else '')
+        elif isinstance(v, (Tup,)):
+            for f in v.fields:
+                walk(f)
+        elif isinstance(v, Ref):
+            try:
+                walk(m.read_path(outs[0].st, v.key, v.path), name)
+            except Exception:
+                pass
+        elif isinstance(v, Int) and name == 'pos':
+            poss.append(v)
+    if good:
+        walk(outs[0].value)
+        bad = sorted(f for f in outs[0].st.flags if f.startswith(('opaque', 'imprecise', 'trunc')))
+        if bad or len(slices) != 1 or slices[0].data != 'cbor' or slices[0].len != Int.sym(ln) or poss != [Int.const(0)]:
+            good = False
+    if good:
+        ctx.ok('DISPLAY-ENTRY', 'display')
+    else:
+        ctx.violation('DISPLAY-ENTRY', 'display', 'minicbor::display does not hand its argument unchanged to a fresh tokenizer (slices %s, positions %s%s)' % (
+            [repr(x) for x in slices], poss, (', ' + ','.join(sorted(f for o in outs for f in o.st.flags if f.startswith(('opaque', 'imprecise'))))) if outs else ''), where)
+
+
 def token_display(ctx, prog):
     ctx.rules_run.append('TOKEN-FMT: per Token variant the literal pieces and format specs of its Display: integers/bools "{}", floats "{:e}", text in double quotes, simple(n), null, undefined, bytes as h\'..\' with two lower-case hex digits per byte')
     inst = prog.one(KFMT)
@@ -1072,6 +1121,7 @@ def run(ctx):
     notation(ctx, prog, depth, sizes)
     s1 = token_display(ctx, prog) or {}
     int_display(ctx, prog)
+    display_entry(ctx, prog)
     s2 = progress(ctx, prog)
     for k, v in s2.items():
         r = s1.setdefault(k, {'ok': 0, 'open': 0, 'fail': 0})
